@@ -327,6 +327,20 @@ def Enforcer.newRaw (defs : Defs) (store : Store) (a : AdapterSt) : Option Enfor
       autoSave := true, autoBuild := true, autoNotify := true, callbacks := 1, hasWatcher := false,
       gfuncs := gf, userFns := [], log := [] }
 
+/-- `Enforcer::new(model, adapter)` with a model that already holds rules (filled by the caller, e.g. through
+an adapter-level filtered load) : an unfiltered adapter is loaded in full (which clears the model first); a
+filtered adapter is not loaded, the rules of the given model stay and their role links are built -/
+def Enforcer.newPrefilled (defs : Defs) (store : Store) (a : AdapterSt) : Option (Enforcer × Res) :=
+  match Enforcer.newRaw defs store a with
+  | none => none
+  | some e0 =>
+    let e := { e0 with store := store }
+    if e.adapter.filtered then
+      match e.buildRoleLinks with
+      | (e', none) => some (e', .unit)
+      | (e', some k) => some (e', .err k)
+    else some e.loadPolicy
+
 /-- `Enforcer::new`: `new_raw`, then `load_policy` unless the adapter is filtered -/
 def Enforcer.new (defs : Defs) (store : Store) (a : AdapterSt) : Option (Enforcer × Res) :=
   match Enforcer.newRaw defs store a with
